@@ -25,7 +25,7 @@ RULE = ('strata: S = every token sequence up to the length bound over {(,),and,o
         'quoted string}; T = one-token rules; E = one-edit corruptions (delete/insert/replace/unbalance) of grammatical '
         'sentences; R = random ASCII/Unicode strings built from rule fragments, exotic whitespace, quotes, full-width '
         'parentheses; V = JSON/YAML scalars and containers as rule values, alone and inside lists, through parse_rule, '
-        'Rules.from_dict, Rules.load (JSON and YAML text) and a file-backed Enforcer. Each rule is enforced under the '
+        'Rules.from_dict, Rules.load (JSON and YAML text) and a file-backed Enforcer; LS = lists of arbitrary strings and lists of strings (must load and evaluate). Each rule is enforced under the '
         'empty, single-role, all-role and an "everything" credential. Non-trivial = the recogniser rejects the string, '
         'or the value is not a string/list-of-strings; distinct = distinct rule value and transport.')
 ASSUMPTIONS = [
@@ -38,7 +38,7 @@ LEVEL_TEXT = ('All rejected token sequences up to 6 (thorough: 7, and 8 over the
               'sample the rest. "Denies for every credential" over an infinite input set is reachable only by such a sweep.')
 LEVEL_NOTE = 'trusted: the independent recogniser; PyYAML/JSON as transports; probe credentials stand for "every credential"'
 PLAN = {'quick': dict(shards=8, wall=70), 'thorough': dict(shards=16, wall=500)}
-MIN = {'evaluations': 1000, 'rejected_strings': 500, 'accepted_strings': 100, 'nonrule_values': 30, 'enforce_calls': 5000}
+MIN = {'evaluations': 1000, 'rejected_strings': 500, 'accepted_strings': 100, 'nonrule_values': 30, 'string_lists': 100, 'enforce_calls': 5000}
 ANCHORS = ['oslo_policy._parser:parse_rule', 'oslo_policy._parser:_parse_text_rule', 'oslo_policy._parser:_parse_check',
            'oslo_policy._parser:_parse_list_rule', 'oslo_policy.policy:Rules.load', 'oslo_policy.policy:Rules.from_dict',
            'oslo_policy.policy:Enforcer.enforce', 'oslo_policy.policy:parse_file_contents']
@@ -363,6 +363,62 @@ def check_value(ctx, real, value, via, case):
     ctx.sample({'value': value, 'via': via}, 'V')
 
 
+def item_ev(item, roles):
+    """Meaning of one list item (a single check, never run through the text parser)."""
+    if item == '@':
+        return True
+    if item == '!':
+        return False
+    if ':' not in item:
+        return False                       # not kind:match -> behaves as `!`
+    kind, match = item.split(':', 1)
+    if kind == 'role' and '%' not in match:
+        return match.lower() in roles
+    return None
+
+
+def check_string_list(ctx, real, value, case):
+    """A list of strings and lists of strings (arbitrary strings!) must load and must be evaluable; where every item has a
+    meaning fixed by C01/C02 the decision is OR over entries of AND over items."""
+    ctx.case(['LS', json.dumps(value)], nontrivial=True, stratum='LS')
+    ctx.count('string_lists')
+    try:
+        enf, tree = real.load(value, case.get('via', 'dict'))
+    except LoadRejected as e:
+        ctx.violation('load-raises-for-list-of-strings', case, {'value': value, 'load_error': str(e)})
+        return
+    try:
+        for creds in ({'roles': []}, {'roles': ['a']}, {'roles': ['a', 'b']}, EVERYTHING):
+            got = real.decide(enf, creds)
+            ctx.count('enforce_calls')
+            if isinstance(got, str):
+                if any(stray_percent(i) for e in value for i in ([e] if isinstance(e, str) else e)):
+                    ctx.unconstrained('stray-percent-in-check')
+                    return
+                ctx.violation('list-of-strings-enforce-raises', case, {'value': value, 'creds': creds, 'observed': got})
+                return
+            roles = [r.lower() for r in creds['roles']]
+            if not value:
+                want = True
+            else:
+                ors = []
+                for entry in value:
+                    if not entry:
+                        continue
+                    items = [entry] if isinstance(entry, str) else entry
+                    vals = [item_ev(i, roles) for i in items]
+                    ors.append(False if any(v is False for v in vals) else (None if any(v is None for v in vals) else True))
+                want = True if any(o is True for o in ors) else (None if any(o is None for o in ors) else False)
+            if want is not None and got != want:
+                ctx.violation('list-of-strings-mismatch', case, {'value': value, 'creds': creds, 'expected': want, 'observed': got})
+                return
+    finally:
+        if tree:
+            tree.cleanup()
+    drain_contracts(ctx, case, None)
+    ctx.sample({'value': value}, 'LS')
+
+
 YAML_SPELLINGS = [('p:\n', None), ('p: ~\n', None), ('p: null\n', None), ('p: !\n', None), ('p: no\n', False),
                   ('p: off\n', False), ('p: false\n', False), ('p: 0\n', 0), ('p: {}\n', {}), ('p: yes\n', True),
                   ('p: 1\n', 1), ('p: 1.5\n', 1.5), ('p: {"@": 1}\n', {'@': 1}), ('p:\n  "@": 1\n', {'@': 1}),
@@ -515,6 +571,23 @@ def run(ctx):
         via = 'dict' if rnd.random() < 0.9 else rnd.choice(['file-json', 'load-json'])
         check_string(ctx, real, text, 'R', dict(s='R', text=text, via=via), readings=ALL_READINGS)
     ctx.stratum('R', exhaustive=False)
+    # LS: lists of arbitrary strings
+    pool = WORDS + LONE + [f for f in FRAGS if f.strip()] + ['role:a', 'role:b', '@', '!', 'role:a and role:b', 'not role:a', '(role:a)']
+    for i in range(b['nR'] // (4 * ctx.nshards) + 1):
+        if (i & 0xff) == 0 and ctx.expired():
+            break
+        value = []
+        for _ in range(rnd.randint(0, 4)):
+            r = rnd.random()
+            if r < 0.15:
+                value.append([])
+            elif r < 0.4:
+                value.append(rnd.choice(pool))
+            else:
+                value.append([rnd.choice(pool) for _ in range(rnd.randint(1, 3))])
+        via = 'dict' if rnd.random() < 0.8 else rnd.choice(['file-json', 'load-json', 'parse_rule'])
+        check_string_list(ctx, real, value, dict(s='LS', value=value, via=via))
+    ctx.stratum('LS', exhaustive=False)
     for k, v in contracts.EVALS.items():
         ctx.count('contract_evals.' + k, v)
 
@@ -523,7 +596,9 @@ def replay(ctx, case):
     contracts.parse_rule_returns_check()
     real = Real()
     s = case.get('s')
-    if s == 'V':
+    if s == 'LS':
+        check_string_list(ctx, real, case['value'], case)
+    elif s == 'V':
         check_value(ctx, real, case['value'], case['via'], case)
     elif s == 'Y':
         check_yaml_spelling(ctx, real, case['yaml'], case.get('parsed'), case)
